@@ -177,7 +177,8 @@ fn route_of(problem: &Problem, vid: &str) -> Route {
 fn op_prag(case: &Value) -> Value {
     let nloc = usize_of(&case["nloc"]);
     let custom = case["custom"].as_bool().unwrap_or(false);
-    let mut jobs: Vec<Value> = (0..nloc).map(|i| job_json(&format!("j{i}"), json!({"index": i}))).collect();
+    // jobs are listed in descending index order so that first-seen order differs from the matrix index
+    let mut jobs: Vec<Value> = (0..nloc).rev().map(|i| job_json(&format!("j{i}"), json!({"index": i}))).collect();
     if custom {
         jobs.push(job_json("jc", json!({"type": "unknown"})));
     }
@@ -239,7 +240,14 @@ fn op_prag(case: &Value) -> Value {
             ])
         })
         .collect();
-    json!({"build": "ok", "size": problem.transport.size(), "vehicles": vehicles, "ans": ans, "custom_idx": custom_idx})
+    let ref_idx: Vec<Value> = (0..nloc)
+        .map(|i| match ci.get_by_loc(&ApiLocation::Reference { index: i }) {
+            Some(k) => json!(k),
+            None => Value::Null,
+        })
+        .collect();
+    json!({"build": "ok", "size": problem.transport.size(), "vehicles": vehicles, "ans": ans, "custom_idx": custom_idx,
+           "ref_idx": ref_idx})
 }
 
 /// coordinate based problem without matrices: approximation
